@@ -566,6 +566,18 @@ def pad_value(v):
     return v
 
 
+def include_flag(cfg):
+    """the include_closing_item flag of a time_split cfg; cfg['include_as'] gives it as a truthy / falsy value that is not the
+    object True / False (a numpy.bool_ read from a settings table, a 0 / 1 from a command line)"""
+    v = cfg.get('include', True)
+    how = cfg.get('include_as')
+    if how == 'numpy':
+        return _np.bool_(v)
+    if how == 'int':
+        return int(v)
+    return v
+
+
 def padding_of(n):
     """the padding of a start_with node as the container its third field names: the items to prepend are given as a list or - as in
     the operator's own documentation - a tuple, or any other re-iterable (a range, a deque, the keys of a dict, a numpy array)"""
@@ -729,7 +741,7 @@ def build_node(node, env=None, taps=None, path=()):
                 ('time_mapper', fn(cfg.get('time', 'id'), env)),
                 ('active_timeout', conv(cfg.get('active'))), ('inactive_timeout', conv(cfg.get('inactive'))),
                 ('closing_mapper', fn(cfg['closing'], env) if cfg.get('closing') else None),
-                ('include_closing_item', cfg.get('include', True)), ('pipeline', inner)], salt + (cfg.get('active') or 0) + 3 * (cfg.get('inactive') or 0))
+                ('include_closing_item', include_flag(cfg)), ('pipeline', inner)], salt + (cfg.get('active') or 0) + 3 * (cfg.get('inactive') or 0))
         if type(inner) is list:
             # a pipeline given as a list belongs to the caller, who may hand the same list to a second operator
             # (the same per-window aggregation at two window sizes): the operator judged is that second one
